@@ -11,6 +11,8 @@ use std::rc::Rc;
 
 pub fn gen_name(rng: &mut Rng) -> Option<Vec<u8>> {
     if rng.chance(1, 8) { return None; }     // thread keeps the inherited name
+    // names that are not UTF-8: raw bytes, and a multi-byte character cut by the kernel's 15-byte limit
+    if rng.chance(1, 10) { return Some(if rng.chance(1, 2) { vec![b'x', 0xff, 0xfe] } else { let mut v = vec![b'a'; 13]; v.extend_from_slice("€".as_bytes()); v }); }
     let mut s = String::new();
     let target = rng.below(16) as usize;
     loop {
@@ -85,5 +87,5 @@ pub fn run(a: &Args) {
         out.case(&cl, resl.s(), mixed);
     }
     out.assumptions.push("the kernel reports thread names through /proc/<pid>/task/<tid>/comm; the writer trims trailing whitespace".into());
-    out.finish(&a.out, "live targets with 1..32 threads, names of 0..15 bytes (ASCII, Latin, CJK, emoji, blanks, tabs); unreadable subsets through the ThreadName fail point toggled per thread from the enumeration hook (all subsets for <= 6 threads, random masks above); the stream and its strings are compared byte for byte with the model (rvas relative); non-trivial = mask neither empty nor full");
+    out.finish(&a.out, "live targets with 1..32 threads, names of 0..15 bytes (ASCII, Latin, CJK, emoji, blanks, tabs; one in ten not valid UTF-8: raw bytes or a character cut at the 15-byte limit); unreadable subsets through the ThreadName fail point toggled per thread from the enumeration hook (all subsets for <= 6 threads, random masks above); the stream and its strings are compared byte for byte with the model (rvas relative); non-trivial = mask neither empty nor full");
 }
